@@ -852,6 +852,11 @@ func c01Outermost(c *Ctx) {
 			}
 			async := inner[0].Method == "executeAsync"
 			withExec := w == "RunWithExecution" || w == "GetWithExecution" || w == "RunWithExecutionAsync" || w == "GetWithExecutionAsync"
+			if len(inner[0].Args) < 2 {
+				ok = false
+				c.Fail(c.fn(fn), c.P.FuncPos(fn), "the entry point does not say whether the user function takes the execution (executeSync / executeAsync called without the withExec flag)", pathTrace(ev, p))
+				continue
+			}
 			if b, isC := inner[0].Args[1].IsConstBool(); !isC || b != withExec {
 				ok = false
 				c.Fail(c.fn(fn), c.P.FuncPos(fn), "withExec flag does not match the entry point", pathTrace(ev, p))
